@@ -369,3 +369,43 @@ def twohop_history(rng):
     else:
       hist.append([['UpdateRecord', 'Form', rng.choice(ids), {'RL': ['L'] + rng.sample(range(4, 10), rng.randint(1, 3))}]])
   return hist
+
+
+def unhashable_key_histories():
+  """Fixed documents (always run): a lookup key column of type Any whose value goes hashable -> unhashable (list,
+  dict) -> hashable again while lookupRecords / lookupOne / len() / two-column lookups already matched the row.
+  (a) the key is an Any FORMULA ([$Name] / {"k": $Name} / $Name by a mode cell); (b) the key is an Any DATA cell that
+  receives a list / dict value."""
+  dst = [{'id': 'Want', 'type': 'Text', 'isFormula': False},
+         {'id': 'N', 'type': 'Any', 'isFormula': True, 'formula': 'len(Src.lookupRecords(Key=$Want))'},
+         {'id': 'Ids', 'type': 'Any', 'isFormula': True,
+          'formula': '[r.id for r in Src.lookupRecords(Key=$Want, order_by="-Name")]'},
+         {'id': 'One', 'type': 'Any', 'isFormula': True, 'formula': 'Src.lookupOne(Key=$Want).Name'},
+         {'id': 'Two', 'type': 'Any', 'isFormula': True, 'formula': 'len(Src.lookupRecords(Key=$Want, Name=$Want))'},
+         {'id': 'Names', 'type': 'Any', 'isFormula': True, 'formula': 'list(Src.lookupRecords(Key=$Want).Name)'}]
+  out = []
+  # (a) formula key
+  src = [{'id': 'Name', 'type': 'Text', 'isFormula': False}, {'id': 'Wrap', 'type': 'Int', 'isFormula': False},
+         {'id': 'Key', 'type': 'Any', 'isFormula': True,
+          'formula': '[$Name] if $Wrap == 1 else ({"k": $Name} if $Wrap == 2 else $Name)'}]
+  h = [[['AddTable', 'Src', copy.deepcopy(src)]], [['AddTable', 'Dst', copy.deepcopy(dst)]],
+       [['BulkAddRecord', 'Src', [1, 2, 3], {'Name': ['a', 'b', 'a'], 'Wrap': [0, 0, 0]}]],
+       [['BulkAddRecord', 'Dst', [1, 2], {'Want': ['a', 'b']}]]]
+  h += [[['UpdateRecord', 'Src', 1, {'Wrap': 1}]], [['UpdateRecord', 'Src', 3, {'Wrap': 2}]],
+        [['UpdateRecord', 'Dst', 2, {'Want': 'a'}]], [['UpdateRecord', 'Src', 1, {'Wrap': 0}]],
+        [['UpdateRecord', 'Src', 2, {'Wrap': 1, 'Name': 'a'}]], [['UpdateRecord', 'Src', 3, {'Wrap': 0}]],
+        [['AddRecord', 'Src', None, {'Name': 'a', 'Wrap': 1}]], [['UpdateRecord', 'Src', 2, {'Wrap': 2}]],
+        [['RemoveRecord', 'Src', 2]], [['UpdateRecord', 'Src', 4, {'Wrap': 0}]]]
+  out.append(h)
+  # (b) data key
+  src = [{'id': 'Name', 'type': 'Text', 'isFormula': False}, {'id': 'Key', 'type': 'Any', 'isFormula': False}]
+  h = [[['AddTable', 'Src', copy.deepcopy(src)]], [['AddTable', 'Dst', copy.deepcopy(dst)]],
+       [['BulkAddRecord', 'Src', [1, 2, 3], {'Name': ['a', 'b', 'a'], 'Key': ['a', 'b', 'a']}]],
+       [['BulkAddRecord', 'Dst', [1, 2], {'Want': ['a', 'b']}]]]
+  h += [[['UpdateRecord', 'Src', 1, {'Key': ['L', 'a']}]], [['UpdateRecord', 'Src', 3, {'Key': ['O', {'k': 'a'}]}]],
+        [['UpdateRecord', 'Dst', 2, {'Want': 'a'}]], [['UpdateRecord', 'Src', 1, {'Key': 'a'}]],
+        [['BulkUpdateRecord', 'Src', [2, 3], {'Key': [['L', 'a', 'b'], 'a']}]],
+        [['AddRecord', 'Src', None, {'Name': 'a', 'Key': ['L', 'a']}]], [['UpdateRecord', 'Src', 4, {'Key': 'a'}]],
+        [['UpdateRecord', 'Src', 2, {'Key': 'b'}]], [['RemoveRecord', 'Src', 1]]]
+  out.append(h)
+  return out
